@@ -401,6 +401,7 @@ fn malformed_inputs(rng: &mut Rng, fm: &Fm, n: usize, thorough: bool) -> Vec<Str
     let pool = keyword_pool(fm.e);
     let mut out = stress_inputs(fm.e, rng, 64);
     out.extend(boundary_inputs(fm.e));
+    out.extend(item_order_inputs(fm.e));
     let vals = value_stream(rng, fm, n / 4 + 4, thorough);
     for v in &vals {
         let s = fm.e.format_narsese(v);
@@ -1032,6 +1033,96 @@ pub fn boundary_inputs(e: &'static EFmt) -> Vec<String> {
             for tail in ["", pj, &format!(" {}", pj), &format!("{} ", pj), e.sentence.punctuation_question] {
                 inputs.push(format!("{}{}{}", p, name, tail));
             }
+        }
+    }
+    inputs
+}
+
+/// texts with items repeated / out of their canonical order, full and padded number lists, and a punctuation followed by a
+/// failing term (added after model mutation testing, DESIGN 9.8).  Model vs implementation only (streams C04 / C12): with
+/// items out of order the enum parser and the lexical parser classify differently (`A $0.5$.` is a task for the former,
+/// a sentence for the latter), which is outside the domain of C15 (texts of formatted values)
+pub fn item_order_inputs(e: &'static EFmt) -> Vec<String> {
+    let mut inputs: Vec<String> = vec![];
+    // every item TWICE and items out of order (a guard `... && slot.is_none()` decides; model mutation testing: dropping
+    // the `truth.is_none()` conjunct survived), and number lists that are full / end in a separator / are padded with
+    // spaces before the right bracket (dropping the space skip before the budget's right bracket survived)
+    {
+        let (tl, tr, ts) = (e.sentence.truth_brackets.0, e.sentence.truth_brackets.1, e.sentence.truth_separator);
+        let (bl, br, bs) = (e.task.budget_brackets.0, e.task.budget_brackets.1, e.task.budget_separator);
+        let (sl, sr) = e.sentence.stamp_brackets;
+        let pj = e.sentence.punctuation_judgement;
+        let pq = e.sentence.punctuation_question;
+        let past = format!("{sl}{}{sr}", e.sentence.stamp_past);
+        let fixed = format!("{sl}{}7{sr}", e.sentence.stamp_fixed);
+        for s in [
+            format!("A{pj} {tl}1{tr} {tl}0.5{tr}"),
+            format!("A{pj} {tl}1{tr}{tl}0.5{tr}"),
+            format!("A{pj} {past} {fixed}"),
+            format!("A{pj} {fixed} {past} {tl}1{tr}"),
+            format!("{bl}0.5{br} {bl}0.6{br} A{pj}"),
+            format!("{bl}0.5{br} A{pj} {bl}0.6{br}"),
+            format!("A{pj}{pj}"),
+            format!("A{pj} {pq}"),
+            format!("A B{pj}"),
+            format!("A{pj} B"),
+            format!("{tl}1{tr} A{pj}"),
+            format!("{past} A{pj}"),
+            format!("{pj} A"),
+            format!("{pj} A {tl}1{tr}"),
+            format!("A {bl}0.5{br}{pj}"),
+            format!("A{pj} {tl}1{tr} {past}"),
+            format!("{bl}0.1{bs}0.2{bs}0.3{bs} {br} A{pj}"),
+            format!("{bl}0.1{bs}0.2{bs}0.3{bs}{br} A{pj}"),
+            format!("{bl}0.1{bs}0.2{bs}0.3 {br} A{pj}"),
+            format!("{bl}0.1{bs}0.2{bs}0.3{bs}0.4{br} A{pj}"),
+            format!("{bl} 0.1 {bs} 0.2 {br} A{pj}"),
+            format!("{bl}0.1{bs} {br} A{pj}"),
+            format!("{bl} {br} A{pj}"),
+            format!("A{pj} {tl}0.5{ts}0.9{ts} {tr}"),
+            format!("A{pj} {tl}0.5{ts}0.9{ts}{tr}"),
+            format!("A{pj} {tl}0.5{ts}0.9 {tr}"),
+            format!("A{pj} {tl}0.5{ts}0.9{ts}0.1{tr}"),
+            format!("A{pj} {tl} 0.5 {ts} 0.9 {tr}"),
+            format!("A{pj} {tl}0.5{ts} {tr}"),
+            format!("A{pj} {tl} {tr}"),
+        ] {
+            inputs.push(s);
+        }
+    }
+    // a punctuation FIRST, then a term that fails: the term branch is then the last branch of consume_one that can run,
+    // so the cursor it leaves is the one the stamp / truth guards and the final error see (model mutation testing: the
+    // state an empty set fails with was interchangeable with the state before its right bracket)
+    {
+        let c = &e.compound;
+        let st = &e.statement;
+        let pj = e.sentence.punctuation_judgement;
+        let (xl, xr) = c.brackets_set_extension;
+        let (il, ir) = c.brackets_set_intension;
+        let fails: Vec<String> = vec![
+            format!("{xl}{xr}"),
+            format!("{il} {ir}"),
+            format!("{xl}{xr}{}", e.sentence.stamp_brackets.0),
+            format!("{xl}{xr}{}", e.sentence.truth_brackets.0),
+            format!("{}{}{} {}", c.brackets.0, c.connecter_conjunction, c.separator, c.brackets.1),
+            format!("{}{}{} A{}", c.brackets.0, c.connecter_difference_extension, c.separator, c.brackets.1),
+            format!("{}{}{} A{} B{}", c.brackets.0, c.connecter_negation, c.separator, c.separator, c.brackets.1),
+            format!("{}{}{} A{}", c.brackets.0, c.connecter_image_extension, c.separator, c.brackets.1),
+            format!("{}{} A{}", c.brackets.0, e.atom.prefix_operator, c.brackets.1),
+            format!("{}?? A{}", c.brackets.0, c.brackets.1),
+            format!("{}A{}", st.brackets.0, st.brackets.1),
+            format!("{}A ?? B{}", st.brackets.0, st.brackets.1),
+            format!("{}A {} {}", st.brackets.0, st.copula_inheritance, st.brackets.1),
+            format!("{}", e.atom.prefix_interval),
+            format!("{}x", e.atom.prefix_interval),
+            format!("{}99999999999999999999999", e.atom.prefix_interval),
+            format!("{}", e.atom.prefix_operator),
+        ];
+        for f in &fails {
+            inputs.push(format!("{pj} {f}"));
+            inputs.push(format!("{pj}{f}{}", e.sentence.stamp_brackets.0));
+            inputs.push(format!("{pj} {f} {}1{}", e.sentence.truth_brackets.0, e.sentence.truth_brackets.1));
+            inputs.push(format!("{f} {pj}"));
         }
     }
     inputs
